@@ -149,6 +149,22 @@ def directory_inputs(v, tier, ev, mlar):
             bad = [k for k, d in want.items() if not os.path.isfile(os.path.join(out, k)) or open(os.path.join(out, k), "rb").read() != d]
             if rc != 0 or bad:
                 v.violation(dict(rec, cmd="extract", kind="extracted-content-differs"), dict(ctx, wrong=bad[:6]))
+    # the archive written to standard output (`-o -`), options given in another order, an absolute input path
+    rc, so, se = run(["create", "-l", "compress", "-o", "-", "proj/top.txt", os.path.join(wd, "other", "readme")])
+    rec = dict(check="cli-observe", cmd="create-stdout", keymode="missing", layers="compress")
+    if rc != 0 or not so.startswith(b"MLA"):
+        v.violation(dict(rec, kind="transform-failed"), dict(rc=rc, stderr=se, head=so[:16].hex()))
+    else:
+        open(os.path.join(wd, "stdout.mla"), "wb").write(so)
+        want = {"proj/top.txt": blobs["proj/top.txt"], os.path.join(wd, "other", "readme"): blobs["other/readme"]}
+        rc, so, se = run(["list", "-i", os.path.join(wd, "stdout.mla")])
+        if rc != 0 or sorted(so.decode().splitlines()) != sorted(want):
+            v.violation(dict(rec, cmd="list", kind="listing-differs"), dict(rc=rc, stderr=se, got=so.decode()[:300]))
+        for k, d in want.items():
+            rc, so, se = run(["cat", k, "-o", "-", "-i", os.path.join(wd, "stdout.mla")])
+            if rc != 0 or so != d:
+                v.violation(dict(rec, cmd="cat", kind="cat-content-differs"), dict(name=k, rc=rc, stderr=se))
+        n += 1
     shutil.rmtree(wd, ignore_errors=True)
     ev["directory_inputs"] = n
     log(f"[C17] create from directories (one directory under two names, links to a file and to an outside directory): {n} archives compared with the walk")
